@@ -1,8 +1,9 @@
 /-! C29 — producer sequence numbers.
 
-Hand-written model of kfake's `pidwindow.pushAndValidate`.
--- models: pkg/kfake/txns.go:pushAndValidate
-The client half (`incrementSequence`) is *regenerated* from the source into `Gen/C29.lean`.
+Hand-written model of kfake's `pidwindow.pushAndValidate`, parameterised by the modulus the
+source uses (the modulus itself is *regenerated* from the source into `Gen/C29.lean`, as is the
+client's `incrementSequence`).
+-- models: pkg/kfake/txns.go:pidwindow.pushAndValidate
 Core Lean only (linked into the driver). -/
 namespace Model.C29
 
@@ -26,7 +27,7 @@ structure Win where
   entries : List Entry := List.replicate 5 default
   at_ : Nat := 0
   count : Nat := 0
-deriving Repr
+deriving Repr, DecidableEq
 
 inductive Resp where
   | accept            -- ok, not dup
@@ -34,22 +35,23 @@ inductive Resp where
   | reject            -- OUT_OF_ORDER_SEQUENCE_NUMBER
 deriving DecidableEq, Repr
 
-/-- Go: `int32((int64(firstSeq) + int64(numRecs)) % (math.MaxInt32+1))`; Go's `%` truncates. -/
-def goNext (firstSeq numRecs : Int) : Int := Int.tmod (firstSeq + numRecs) seqMod
+/-- Go: `int32((int64(firstSeq) + int64(numRecs)) % M)`; Go's `%` truncates toward zero. The
+operands are non-negative int32 values, so the int32 conversion is the identity for M ≤ 2^31. -/
+def goNext (m : Int) (firstSeq numRecs : Int) : Int := Int.tmod (firstSeq + numRecs) m
 
-/-- the dup scan `for i := range s.count { e := s.entries[i]; if … return e.offset }` -/
+/-- the dup scan `for i := range s.count { e := s.entries[i]; if … return true, true, e.offset }` -/
 def findDup (es : List Entry) (count : Nat) (first nxt : Int) : Option Int :=
   ((es.take count).find? (fun e => e.first == first && e.nxt == nxt)).map (·.offset)
 
-def push (s : Win) (epoch first n base : Int) : Win × Resp :=
+def push (m : Int) (s : Win) (epoch first n base : Int) : Win × Resp :=
   if !s.seen || epoch != s.epoch then
     if s.seen && first != 0 then (s, .reject)
     else
-      let nx := goNext first n
+      let nx := goNext m first n
       ({ seen := true, epoch := epoch, nextSeq := nx,
          entries := ⟨first, nx, base⟩ :: List.replicate 4 default, at_ := 1, count := 1 }, .accept)
   else
-    let nx := goNext first n
+    let nx := goNext m first n
     match findDup s.entries s.count first nx with
     | some off => (s, .dup off)
     | none =>
@@ -58,5 +60,71 @@ def push (s : Win) (epoch first n base : Int) : Win × Resp :=
         ({ s with nextSeq := nx, entries := s.entries.set s.at_ ⟨first, nx, base⟩,
                   at_ := (s.at_ + 1) % 5, count := if s.count < 5 then s.count + 1 else s.count },
          .accept)
+
+/-- The window entries in order of age (most recent first): the abstraction used by the proofs. -/
+def recent (s : Win) : List Entry :=
+  (List.range s.count).map (fun j => s.entries.getD ((s.at_ + 5 - 1 - j) % 5) default)
+
+/-- Shape invariant of the circular buffer. -/
+def WF (s : Win) : Prop :=
+  s.entries.length = 5 ∧ s.at_ < 5 ∧ s.count ≤ 5 ∧ (s.count < 5 → s.at_ = s.count) ∧ (s.seen = true → 1 ≤ s.count)
+
+/-- Abstract state of the property's broker-side sentence: epoch, expected sequence and the
+(at most five) most recently accepted batches, newest first. -/
+structure Spec where
+  seen : Bool := false
+  epoch : Int := 0
+  nextSeq : Int := 0
+  recent : List Entry := []
+deriving Repr, DecidableEq
+
+/-- Does the property allow answer `r` to a push in abstract state `t`?  A retried batch (same
+`(first, (first+n) mod 2^31)` as a remembered one) must be answered `dup` with the offset of such a
+batch; otherwise the expected sequence is accepted and every other one rejected; a new epoch
+(or a never-used window) accepts only a restart at 0 (any sequence when never used). -/
+def Spec.allows (t : Spec) (epoch first n : Int) (r : Resp) : Bool :=
+  let nx := next first n
+  if !t.seen || epoch != t.epoch then
+    if t.seen && first != 0 then r == .reject else r == .accept
+  else
+    let ms := t.recent.filter (fun e => e.first == first && e.nxt == nx)
+    if !ms.isEmpty then
+      match r with
+      | .dup off => ms.any (fun e => e.offset == off)
+      | _ => false
+    else if first == t.nextSeq then r == .accept
+    else r == .reject
+
+def Spec.step (t : Spec) (epoch first n base : Int) (r : Resp) : Spec :=
+  match r with
+  | .accept =>
+    if !t.seen || epoch != t.epoch then
+      { seen := true, epoch := epoch, nextSeq := next first n, recent := [⟨first, next first n, base⟩] }
+    else
+      { t with nextSeq := next first n, recent := (⟨first, next first n, base⟩ :: t.recent).take 5 }
+  | _ => t
+
+def abs (s : Win) : Spec := ⟨s.seen, s.epoch, s.nextSeq, recent s⟩
+
+/-- A push request as it reaches `pushAndValidate`. -/
+structure Op where
+  epoch : Int
+  first : Int
+  n : Int
+  base : Int
+deriving Repr, DecidableEq
+
+def Op.valid (o : Op) : Prop := 0 ≤ o.first ∧ 0 ≤ o.n
+
+/-- All answers of a history of pushes against the concrete window. -/
+def runWin (m : Int) : Win → List Op → List Resp
+  | _, [] => []
+  | s, o :: os => (push m s o.epoch o.first o.n o.base).2 :: runWin m (push m s o.epoch o.first o.n o.base).1 os
+
+/-- The property as a predicate on a history and its answers (abstract state threaded by the answers). -/
+def specAccepts : Spec → List Op → List Resp → Bool
+  | _, [], [] => true
+  | t, o :: os, r :: rs => t.allows o.epoch o.first o.n r && specAccepts (t.step o.epoch o.first o.n o.base r) os rs
+  | _, _, _ => false
 
 end Model.C29
